@@ -24,7 +24,10 @@ DON'T-CAREs (where the standard is silent or odxtools documents a deliberate rea
   a zero slope without COMPU-INVERSE-VALUE, python floats handed to integer types and python ints handed to
   float types, physical values on/near a physical boundary derived from an OPEN internal limit, physical
   validity of anything that is not provably the image of a valid internal value under a monotone continuous
-  (piecewise linear) or declared-inverse (rational) method, TEXTTABLE defaults in the reverse direction.
+  (piecewise linear) or declared-inverse (rational) method, TEXTTABLE defaults in the reverse direction,
+  physical validity of integer values of magnitude >= 2^53 in the arithmetic categories (odxtools evaluates the
+  formulas in double precision; conversions are compared with relative tolerance 1e-9 there).  Limits and internal
+  values are compared exactly (integers of any size).
 """
 from __future__ import annotations
 
@@ -107,7 +110,8 @@ class Accept:
             return repr(a)
         return ("nearest-int of " if self.integral else "") + " | ".join(s(a) for a in self.alts)
 
-    def ok(self, got: Any) -> bool:
+    def ok(self, got: Any, exact: bool = False) -> bool:
+        """got is an admissible result (exact=True: without the floating point tolerance)"""
         for a in self.alts:
             if isinstance(a, (str, bytes, bytearray)):
                 if isinstance(a, str):
@@ -123,10 +127,10 @@ class Accept:
             if self.integral:
                 if g.denominator != 1:
                     continue
-                if lo - HALF <= g <= hi + HALF or lo - HALF - _tol(lo) <= g <= hi + HALF + _tol(hi):
+                if lo - HALF <= g <= hi + HALF or (not exact and lo - HALF - _tol(lo) <= g <= hi + HALF + _tol(hi)):
                     return True
             else:
-                if lo <= g <= hi or lo - _tol(lo) <= g <= hi + _tol(hi):
+                if lo <= g <= hi or (not exact and lo - _tol(lo) <= g <= hi + _tol(hi)):
                     return True
         return False
 
@@ -612,10 +616,12 @@ class RefCompu:
             return True
         return False
 
-    def _int_candidates(self, xr: F, width: F) -> Optional[List[F]]:
-        """internal candidates around the exact pre-image xr (integer internal types: all integers within width)"""
+    def _int_candidates(self, xr: F, width: F, snap: Sequence[F] = ()) -> Optional[List[F]]:
+        """internal candidates around the exact pre-image xr (integer internal types: all integers within width;
+        float internal types: xr itself and the scale limits within width -- an image computed in floating point may
+        lie a rounding error beside the exact image of the limit)"""
         if not self.i_int:
-            return [xr]
+            return [xr] + [b for b in snap if abs(b - xr) <= width]
         lo, hi = math.ceil(xr - width), math.floor(xr + width)
         if hi - lo > 64:
             return None
@@ -630,8 +636,9 @@ class RefCompu:
                 if self._outside(p, pc.hull()):
                     continue
                 if pc.slope != 0:
-                    w = (HALF / abs(pc.slope) + 1) if self.p_int else F(0)
-                    c = self._int_candidates(pc.finv(p), w)
+                    # (real-valued physical type: the pre-image is known up to the floating point tolerance of p)
+                    w = (HALF / abs(pc.slope) + 1) if self.p_int else _tol(p) / abs(pc.slope)
+                    c = self._int_candidates(pc.finv(p), w, [b for b in (pc.fin_lo(), pc.fin_hi()) if b is not None])
                     if c is None:
                         unsure = True
                     else:
@@ -648,8 +655,8 @@ class RefCompu:
                     continue
                 if y0 != y1:
                     s = (y1 - y0) / (x1 - x0)
-                    w = (HALF / abs(s) + 1) if self.p_int else F(0)
-                    c = self._int_candidates(x0 + (p - y0) / s, w)
+                    w = (HALF / abs(s) + 1) if self.p_int else _tol(p) / abs(s)
+                    c = self._int_candidates(x0 + (p - y0) / s, w, [x0, x1])
                     if c is None:
                         unsure = True
                     else:
@@ -662,12 +669,35 @@ class RefCompu:
                 continue
             if self.valid_internal(xv) is True:
                 acc = self.int_to_phys_accept(xv)
-                if isinstance(acc, Accept) and acc.ok(p):
+                if isinstance(acc, Accept) and acc.ok(p, exact=self.p_int):
                     if acc.has_tie():
                         unsure = True  # p is the image only under one of the two admissible tie resolutions
                     else:
                         return True
         return None if unsure else False
+
+    @staticmethod
+    def _outside_exact(p: F, hull: Tuple[Optional[F], Optional[F]]) -> bool:
+        lo, hi = hull
+        return (lo is not None and p < lo) or (hi is not None and p > hi)
+
+    def valid_physical_image(self, x: Any, p: Any) -> Optional[bool]:
+        """p is the physical value an implementation COMPUTED for the internal value x.  True: it MUST be declared valid
+        (x must be valid, p is its image up to the rounding tolerance -- also when floating point put it a rounding error
+        beyond the exact physical range -- and the method is monotone continuous piecewise linear); else None."""
+        if self.cat not in ("LINEAR", "SCALE-LINEAR", "TAB-INTP") or not self.monotone_continuous:
+            return None
+        if not is_num(p) or admissible(self.pt, p) is not True or self.valid_internal(x) is not True:
+            return None
+        acc = self.int_to_phys_accept(x)
+        if not isinstance(acc, Accept) or acc.has_tie() or not acc.ok(p):
+            return None
+        P = F(p)
+        if self.p_int and abs(P) >= 2**53:
+            return None
+        if any(self._near(P, e) for pc in self.pieces for e in pc.open_ends()):
+            return None
+        return True
 
     def valid_physical(self, p: Any) -> Optional[bool]:
         """True: p MUST be declared valid (it is the image of a valid internal value under a monotone continuous
@@ -700,13 +730,19 @@ class RefCompu:
                 open_ends = [e for pc in self.pieces for e in pc.open_ends()]
             if all(self._outside(P, h) for h in hulls):
                 return False
+            if self.p_int and abs(P) >= 2**53:
+                return None  # odxtools evaluates the formulas in double precision: no claim about images beyond 2^53
             if any(self._near(P, e) for e in open_ends):
-                if self.injective and all(e.denominator == 1 or not self.p_int for e in open_ends) and \
-                        self._is_image(P) is False:
+                # MUST NOT only exactly ON an exactly representable OPEN boundary (a value one rounding error beside a
+                # boundary that has no exact binary representation is DON'T-CARE)
+                if self.injective and any(P == e for e in open_ends) and \
+                        all(e.denominator == 1 or not self.p_int for e in open_ends) and self._is_image(P) is False:
                     return False
                 return None
             if adm is not True:
                 return None
+            if not self.p_int and all(self._outside_exact(P, h) for h in hulls):
+                return None  # a rounding error outside the exact range: only claimed for computed images (valid_physical_image)
             if self.monotone_continuous and self._is_image(P) is True:
                 return True
             return None
@@ -840,6 +876,10 @@ def valid_internal(cm_spec: Dict[str, Any], internal_type: str, physical_type: s
 
 def valid_physical(cm_spec: Dict[str, Any], internal_type: str, physical_type: str, p: Any) -> Optional[bool]:
     return compile_cm(cm_spec, internal_type, physical_type).valid_physical(p)
+
+
+def valid_physical_image(cm_spec: Dict[str, Any], internal_type: str, physical_type: str, x: Any, p: Any) -> Optional[bool]:
+    return compile_cm(cm_spec, internal_type, physical_type).valid_physical_image(x, p)
 
 
 def is_injective(cm_spec: Dict[str, Any], internal_type: str, physical_type: str) -> bool:
